@@ -25,6 +25,7 @@ OLD_CELLS = {
     "cubic": [[5.0, 0, 0], [0, 5.0, 0], [0, 0, 5.0]],
     "ortho": [[4.0, 0, 0], [0, 5.0, 0], [0, 0, 6.5]],
     "tric": [[5.0, 0, 0], [1.0, 4.0, 0], [0.5, -0.75, 6.0]],
+    "lefth": [[0, 4.0, 0.5], [5.0, 0, 0], [0.25, 1.0, 6.0]],  # left-handed (negative determinant), legal in ASE
 }
 
 
@@ -196,17 +197,20 @@ def sc_hamiltonian(V, n=1, via_setter=False):
     _textbook(V, d, u, X, None, "decision==textbook", f"hamiltonian:setter={via_setter}")
 
 
-def _new_cell(V, atoms):
+def _new_cell(V, atoms, old="cubic"):
+    """New cell: 9 symbolic entries, non-degenerate and of the same handedness as the old cell
+    (cell moves multiply by a deformation gradient of positive determinant)."""
     h = V.array("h", (3, 3))
+    sign = 1.0 if np.linalg.det(np.array(OLD_CELLS[old], dtype=float)) > 0 else -1.0
     if V.mode == "sym":
-        V.assume(shims.det3(h) > 0)
+        V.assume(sign * shims.det3(h) > 0)
         atoms.set_cell(h, scale_atoms=False)
         vol_new = atoms.get_volume()
     else:
-        if np.linalg.det(h) <= 0:
-            raise symx.ReplayMismatch("det<=0")
+        if sign * np.linalg.det(h) <= 0:
+            raise symx.ReplayMismatch("handedness")
         atoms.set_cell(h, scale_atoms=False)
-        vol_new = float(np.linalg.det(h))
+        vol_new = abs(float(np.linalg.det(h)))
     return h, vol_new
 
 
@@ -242,7 +246,7 @@ def sc_isobaric(V, n=1, old="cubic", via_setter=False):
     ctx.last_potential_energy = E0
     ctx.last_cell = atoms.get_cell()
     vo = atoms.get_volume()
-    h, vn = _new_cell(V, atoms)
+    h, vn = _new_cell(V, atoms, old)
     ctx.rng = OneU(u)
     d = _evaluate(V, IsobaricCriteria(), ctx, "isobaric")
     if d is None:
@@ -276,7 +280,7 @@ def sc_isotension(V, n=1, old="cubic", hydro=False, via_setter=False):
     ctx.last_potential_energy = E0
     ctx.last_cell = atoms.get_cell()
     vo = atoms.get_volume()
-    h, vn = _new_cell(V, atoms)
+    h, vn = _new_cell(V, atoms, old)
     ctx.rng = OneU(u)
     crit = IsotensionCriteria()
     d = _evaluate(V, crit, ctx, "isotension")
@@ -375,7 +379,7 @@ replay = generic_replay(SCENARIOS)
 def _plan(tier):
     plan = []
     ns = (0, 1, 2) if tier == "quick" else (0, 1, 2, 3, 4)
-    olds = ("cubic", "tric") if tier == "quick" else ("cubic", "ortho", "tric")
+    olds = ("cubic", "tric", "lefth") if tier == "quick" else ("cubic", "ortho", "tric", "lefth")
     for vs in (False, True):
         plan.append(("canonical", dict(n=1, via_setter=vs), ("canonical:decided",)))
         plan.append(("hamiltonian", dict(n=1 if tier == "quick" else 2, via_setter=vs), ("hamiltonian:decided",)))
